@@ -117,7 +117,7 @@ _wire("C07", 40, 900,
       "each run is one of three scenarios around the real protocol.Dial (through hook H1): (history) enroll, then 3-9 steps of clock jump + root rotation or a dial with tape-chosen address form (host:port, bare host, unix path, IPv4/IPv6 literal), client state (absent, small, nested, large 12-30 KB = more than 99 ALPN chunks), extra ALPN protocols and node storage wrapper; (pending) NewNodeCredentials, dial before authorization, operator authorization of the stored key, dial again - also token and wrapper flows; (rogue) the dial is routed to a hand-written crypto/tls server that presents a foreign-root certificate with the right nonce, a certificate legitimately minted by the real roots for another nonce, one without nonce, a registered node's client certificate, the non-preferred chain, or (control) a correct relay certificate. Also: clock jumps without rotation (roots age; window where current is expired and next valid), a short-reading application random source (no degenerate nonce may leave the node), a man in the middle after the fetch, rogues that request no client certificate or select a fetch-like extra protocol. Non-trivial: all; distinct by (scenario, address class, state/extras, rogue kind, outcome).",
       ["the nonce of a connection is extracted from the ClientHello bytes captured by simnet",
        "an honest dial is required to succeed iff some stored chain is valid now and issued by a root the server currently holds (computed with crypto/x509 from both storages)",
-       "kernel dialing is replaced by protocol.SimDial; address parsing and SNI selection still run"])
+       "kernel dialing is replaced by protocol.SimDial, called from each network arm of Dial with the network it chose (unix for a path, tcp otherwise - asserted); address parsing and SNI selection still run"])
 _wire("C17", 40, 900,
       "each run builds a SplitListener over the real listener with a tape-chosen set of sub-listeners (three specific names, __AUTH__, __UNAUTH__, each present or not, native connections on/off, GetListener sometimes called twice) and an application base TLS config in {none, no ALPN, fixed protocols, mirroring whatever the client offers}; 3-9 clients follow: authenticated nodes with extra-protocol lists (matching none / one / several registered names, the reserved names, near-misses), base-TLS clients offering tape-ordered lists that include the reserved names, registered names, near-misses and names under the certificate-preference prefix, fetch-only (unauthorized) nodes and raw garbage; finally the base listener is closed. All goroutines (split loop, one acceptor per sub-listener, clients) run under the seeded lock-aware scheduler. Non-trivial: all; distinct by (client kind, offered names, registered set, destination, negotiated protocol).",
       ["which of several matching specific sub-listeners receives an authenticated connection is not judged (sync.Map iteration order)",
@@ -146,7 +146,7 @@ HOOK_SITES = {
                              'simPoint(l, "close.lock.pre")': 1, 'simPoint(l, "close.lock.post")': 1, 'simPoint(l, "close.enter")': 1,
                              'simPoint(l, "accept.select.pre")': 1, 'simPoint(l, "accept.recv.post")': 1},
 }
-HOOK_COMMITS = ["54f90f1", "c914c74", "9c93c69"]
+HOOK_COMMITS = ["54f90f1", "c914c74", "9c93c69", "a7d518d"]
 
 NOT_APPLICABLE = {}
 NOT_APPLICABLE["C20"] = ("pure function of its arguments (BreakIntoNextProtos/CombineFromNextProtos): no clock, schedule, I/O, fault or second party for a simulator to control; "
